@@ -185,7 +185,9 @@ def main(run):
         "Coq 8.16.1 kernel and vm_compute (incl. primitive floats = IEEE binary64 as in CPython)",
         "hand-written model coq/Model/C05_Nsga2.v tied by correspondence (harness/c05.py): floats bit-exact, rationals exact where float arithmetic is exact by construction, 2^-40 relative otherwise",
         "Python list.sort/sorted stability (incl. reverse=True) modelled by stable insertion sort (coq/Base/C05_Sort.v)",
-        "the non-dominated sorters are NOT modelled here (C04): the theorems assume fronts_correct, which is decided in Coq on the fronts the implementation's sorter returned in every case",
+        "first half of Props/C05.v: theorems relative to fronts_correct, which is decided in Coq on the fronts the implementation's sorter returned in every case",
+        "second half (C05_full_*): the sort is inside the model (property C04's models coq/Model/C04_NDSort.v, C04_LogSort.v, proved correct there); tied here by evaluating sel_nsga2_full (the model sorts by itself) against the fronts of the implementation's sorter and the list selNSGA2 returned, both back-ends, every case",
+        "C04's model of median() carries the doubled median of integer images (order-isomorphic per objective to the weighted values); the log-time sort's output does not depend on the pivot value (only ranks and the lexicographic order decide it)",
         "harness: object identity by position of id() in the input list; float.hex literals; Fraction(float) exact",
     ]
     run.assumptions += ["fitness values finite (no NaN/inf), all individuals have the same number of objectives",
@@ -438,10 +440,42 @@ def main(run):
         exact = all(float_exact_ok([obs_vals[j] for j in f if j < n]) for f in fronts_uid)
         stats["exact_q"] += exact
         popq = clist(["(%s, %s)" % (czl(img[j]), cql(obs_vals[j])) for j in range(n)])
-        add("CSelQ %s %s %s %s %s %s %s" % (cbool(exact), cnat(k), popq, fu, cnatl(sel_uid),
+        add("CSelQ %s %s %s %s %s %s %s %s" % (cbool(exact), cbool(nd == "standard"), cnat(k), popq, fu, cnatl(sel_uid),
                                             clist([copt(None if x is None else float(x), cqinf) for x in pre_cd]) if stale else "[]",
                                             clist([copt(x, cqinf) for x in cd])), case)
         return res
+
+    # ------------------------------------------------------------------------
+    def full_case(w, vals, k, nd):
+        """Calls outside the preconditions of the C05_full_ theorems (another `nd`, empty population): the end-to-end
+        model sel_nsga2_full must raise exactly when the implementation raises, and select the same otherwise.
+        Model tie only (the property statement says nothing about these calls)."""
+        pop = build(w, vals)
+        pos = {id(ind): j for j, ind in enumerate(pop)}
+        status, res = guarded(tools.selNSGA2, pop, k, nd)
+        case = {"kind": "full", "weights": list(w), "values": [list(v) for v in vals], "k": k, "nd": repr(nd)}
+        stats["full_only_calls"] = stats.get("full_only_calls", 0) + 1
+        if status == "ok":
+            obs = [pos.get(id(x), len(pop)) for x in res]
+            case["observed"] = obs
+        else:
+            obs = None
+            case["observed"] = "raised %s" % (res,)
+        run.note_case(case, True)
+        img = rank_image(pop)
+        popq = clist(["(%s, %s)" % (czl(img[j]), cql([float(x) for x in pop[j].fitness.values])) for j in range(len(pop))])
+        ndn = {"standard": 0, "log": 1}.get(nd, 2) if isinstance(nd, str) else 2
+        add("CFullQ %s %s %s %s" % (cnat(ndn), cnat(k), popq, copt(obs, cnatl)), case)
+
+    for nd_ in ("standard", "log", "Standard", "", "fast", None, 0):
+        for k_ in (0, 1, 3):
+            full_case([1, -1], [], k_, nd_)                      # empty population
+            if nd_ not in ("standard", "log"):
+                full_case([1, -1], [(0, 2), (1, 1), (2, 0), (0, 0)], k_, nd_)
+    for _ in range(run.scale(6, 40)):                            # valid calls through the same term
+        n_ = rng.randint(1, 8)
+        vals_ = [[rng.randint(0, 3), rng.randint(0, 3)] for _ in range(n_)]
+        full_case([rng.choice([1, -1]), rng.choice([1, -1])], vals_, rng.randint(0, n_ + 2), rng.choice(["standard", "log"]))
 
     ROUTES = ["positional", "positional", "keyword", "emo", "toolbox", "default"]
 
